@@ -19,7 +19,7 @@ pub const DEF: PropDef = PropDef {
 };
 
 fn jobs(plan: &Plan) -> Vec<Job> {
-    entry_jobs(plan, "C14", "laws", plan.tier.pick(80, 600, 1), |_| true)
+    entry_jobs(plan, "C14", "laws", plan.tier.pick(80, 3000, 1), |_| true)
 }
 
 fn required(plan: &Plan) -> Vec<String> {
